@@ -40,7 +40,11 @@ func errLine(code int) string { return fmt.Sprintf("err:%d", code) }
 // data on this node).
 func (w *world) propResolve(id *blockID) (int, bool) {
 	h := w.height()
-	switch id.tag {
+	tag := id.tag
+	if tag == "both" {
+		tag = "hash" // block_hash takes precedence
+	}
+	switch tag {
 	case "number":
 		if id.num < uint64(h) {
 			return int(id.num), true
@@ -162,11 +166,11 @@ func exp1(resolved int, line string) expectation {
 
 // expect computes the property's answer for a query on an API version.
 func (w *world) expect(q *query, ver string) expectation {
-	// block tags a version does not know
-	if q.id != nil && ver == "v8" && q.id.tag == "l1" {
+	// anything that is not a block id of this version is refused as invalid params
+	if q.id != nil && q.id.sem(ver) == "invalid" {
 		return exp1(-1, errLine(codeInvalidParams))
 	}
-	v8pending := q.id != nil && ver == "v8" && q.id.tag == "pre"
+	v8pending := q.id != nil && q.id.sem(ver) == "pending"
 	n, ok := 0, false
 	if q.id != nil {
 		n, ok = w.propResolve(q.id)
@@ -196,6 +200,10 @@ func (w *world) expect(q *query, ver string) expectation {
 			return expectation{skip: true}
 		}
 		if !ok {
+			if q.method == "txByIdx" && q.index < 0 {
+				// neither the block nor the index exists: either complaint is accurate
+				return expectation{lines: []string{errLine(codeBlockNotFound), errLine(codeInvalidTxIndex)}, resolved: -1}
+			}
 			return exp1(-1, errLine(codeBlockNotFound))
 		}
 		b := w.g.Bundles[n]
@@ -231,7 +239,7 @@ func (w *world) expect(q *query, ver string) expectation {
 			}
 			return exp1(res, fmt.Sprintf("ok %s %s %s %s", hx(b.Block.Hash), hx(b.Block.GlobalStateRoot), old, diffItems(b.SU.StateDiff, filter)))
 		default: // txByIdx
-			if q.index >= len(b.Block.Transactions) {
+			if q.index < 0 || q.index >= len(b.Block.Transactions) {
 				return exp1(res, errLine(codeInvalidTxIndex))
 			}
 			tx := b.Block.Transactions[q.index]
@@ -252,6 +260,72 @@ func (w *world) expect(q *query, ver string) expectation {
 		default:
 			return exp1(bn, fmt.Sprintf("ok %s %s", w.finality(bn), revS(rc.Reverted)))
 		}
+	case "storageLU":
+		// a v0.10 parameter: older versions must refuse the extra argument
+		if ver != "v10" {
+			return exp1(-1, errLine(codeInvalidParams))
+		}
+		sq := *q
+		sq.method = "storage"
+		e := w.expect(&sq, ver)
+		if e.resolved < 0 {
+			return e
+		}
+		// "last update": the newest block up to the denoted one that wrote the slot (0: never).
+		// Whether a write that does not change the value counts is not said anywhere: both
+		// readings are accepted here, but the two backends must agree (see sigLastUpdateNoop).
+		// candidates: the newest block that changed the value; that wrote the slot at all; that
+		// wrote it other than zero-over-zero
+		slotAt := func(j int) felt.Felt {
+			var v felt.Felt
+			if j >= 0 {
+				if c, ok := w.g.States[j].Contracts[q.addr]; ok {
+					v = c.Storage[q.key]
+				}
+			}
+			return v
+		}
+		cands := map[int]bool{}
+		for _, mode := range []string{"changed", "touched", "logged"} {
+			last := 0
+			for j := e.resolved; j >= 0; j-- {
+				kv, ok := w.g.Bundles[j].SU.StateDiff.StorageDiffs[q.addr]
+				if !ok {
+					continue
+				}
+				v, ok := kv[q.key]
+				if !ok {
+					continue
+				}
+				prev := slotAt(j - 1)
+				if mode == "changed" && v.Equal(&prev) {
+					continue
+				}
+				if mode == "logged" && v.IsZero() && prev.IsZero() {
+					continue
+				}
+				last = j
+				break
+			}
+			cands[last] = true
+		}
+		var lines []string
+		for _, l := range e.lines {
+			if strings.HasPrefix(l, "ok ") {
+				var cs []int
+				for c := range cands {
+					cs = append(cs, c)
+				}
+				sort.Ints(cs)
+				for _, c := range cs {
+					lines = append(lines, fmt.Sprintf("%s @%x", l, c))
+				}
+			} else {
+				lines = append(lines, l)
+			}
+		}
+		e.lines = lines
+		return e
 	case "storage", "nonce", "classHashAt", "class", "classAt":
 		if !ok {
 			return exp1(-1, errLine(codeBlockNotFound))
